@@ -177,6 +177,8 @@ class Cap(object):
             return
         bad = st.cons + [(-goal) - 1]
         und = any(s in st.imprecise for s in goal.syms())
+        if DEBUG_LOOPS and node.get("l") == int(os.environ.get("LA_DEBUG_LINE", "0")):
+            print("   OBL %s goal %r und=%s cons=%r path=%s" % (kind, goal, und, st.cons, st.path[-8:]))
         wit = None if und else model(bad)
         o = Obligation(kind, node, fn, False, detail, undecided=und, witness=wit)
         prev = self.seen_obl.get(key)
@@ -1039,10 +1041,19 @@ class Cap(object):
             ln = fresh("sl")
             st.cons.append(Lin.sym(ln))
             st.imprecise.add(ln)
+            self.note_terminator(st, r, v, ln)
             return Lin.sym(ln)
         ln = fresh("sl")
         st.cons.append(Lin.sym(ln))
+        self.note_terminator(st, r, v, ln)
         return Lin.sym(ln)
+
+    def note_terminator(self, st, r, v, ln):
+        """the string function found a terminator ln bytes after v: later reads of the same (unwritten) buffer see the same one"""
+        if r.nul is None and r.slen is None:
+            r.nul = v[2] + Lin.sym(ln)
+            if v[2].is_const() and v[2].c == 0:
+                r.slen = Lin.sym(ln)
 
     def new_heap(self, st, size, node, name="heap block"):
         rid = st.new_region("heap", size, None, name, node)
